@@ -10,12 +10,19 @@ type writeSizer struct {
 	size uint64
 }
 
-func (w *writeSizer) Write(p []byte) (int, error) {
+func (w *writeSizer) Write(p []byte) (n int, err error) {
 	w.size += uint64(len(p))
 	if w.crc != nil {
-		return w.crc.Write(p)
+		n, err = w.crc.Write(p)
+	} else {
+		n, err = w.w.Write(p)
 	}
-	return w.w.Write(p)
+	if err == nil && n < len(p) {
+		// the callers only look at the error: a destination that took fewer bytes than it was
+		// given, without saying why, must not pass for a successful write.
+		err = io.ErrShortWrite
+	}
+	return n, err
 }
 
 func newWriteSizer(w io.Writer, calculateCRC bool) *writeSizer {
